@@ -324,11 +324,11 @@ class RuleMgr:
                 chain=chain,
                 proto=rule.proto,
                 src_ip=(
-                    _ANY if rule.src_ip is firewall.ANY_IP else rule.src_ip
+                    _ANY if rule.src_ip == firewall.ANY_IP else rule.src_ip
                 ),
                 src_port=(rule.src_port or _ANY),
                 dst_ip=(
-                    _ANY if rule.dst_ip is firewall.ANY_IP else rule.dst_ip
+                    _ANY if rule.dst_ip == firewall.ANY_IP else rule.dst_ip
                 ),
                 dst_port=(rule.dst_port or _ANY),
                 new_ip=rule.new_ip,
@@ -339,11 +339,11 @@ class RuleMgr:
                 chain=chain,
                 proto=rule.proto,
                 src_ip=(
-                    '*' if rule.src_ip is firewall.ANY_IP else rule.src_ip
+                    '*' if rule.src_ip == firewall.ANY_IP else rule.src_ip
                 ),
                 src_port=(rule.src_port or _ANY),
                 dst_ip=(
-                    '*' if rule.dst_ip is firewall.ANY_IP else rule.dst_ip
+                    '*' if rule.dst_ip == firewall.ANY_IP else rule.dst_ip
                 ),
                 dst_port=(rule.dst_port or _ANY),
                 new_ip=rule.new_ip,
